@@ -362,7 +362,39 @@ def r4_rejections(report, repo):
                  'pass the check')
 
 
+def r5b_keep_terminal(report, repo, rule='C06-R5'):
+  """A validation error at the end of a phase never replaces an already
+  terminal phase result (exception, TIMEOUT, STOP): the first terminal event
+  decides."""
+  f = repo.func(TS, 'PhaseState._finalize_measurements')
+  cands = [f]
+  for c in core.calls_in(f.node):
+    cn = call_name(c) or ''
+    if cn.startswith('self.') and repo.has_func(TS, 'PhaseState.' + cn[5:]):
+      cands.append(repo.func(TS, 'PhaseState.' + cn[5:]))
+  n = 0
+  for cf in cands:
+    g = lib.cfg(cf)
+    for node in g.nodes:
+      if node.kind != 'stmt' or not isinstance(node.ast, ast.Assign):
+        continue
+      if not any((dotted(t) or '').endswith('phase_record.result')
+                 for t in node.ast.targets):
+        continue
+      n += 1
+      ok = g.dominated_by_edge(
+          node, lambda s, l, d: s.kind == 'test' and l == 'F' and
+          (dotted(s.ast) or '').endswith('result.is_terminal'))
+      report.check(ok, rule, cf.qualname, 'keeps-terminal-result', node.ast,
+                   'the phase result is replaced only when it is not terminal',
+                   'the phase result can be replaced by a validation error '
+                   'although it is already terminal (e.g. TIMEOUT or STOP): '
+                   'the run reports ERROR instead of the first terminal event')
+  report.expect_instances(rule, n, 1, 'phase result replacements')
+
+
 def r5_finalize_measurements(report, repo):
+  r5b_keep_terminal(report, repo)
   rule = 'C06-R5'
   report.rule(rule, 'T-MUST/T-SHIELD/T-WHO: _finalize_measurements visits '
               'every measurement, validates each PARTIALLY_SET one inside its '
